@@ -1,3 +1,5 @@
 pub mod nd;
 pub mod arena;
 pub mod rec;
+pub mod leaf;
+pub mod reference;
